@@ -618,8 +618,9 @@ pub fn runaway() -> bool {
     TLS.with(|t| t.runaway.get())
 }
 
+/// true once if the event ring or the block table overflowed since the last call (then cleared)
 pub fn overflowed() -> bool {
-    TLS.with(|t| t.overflow.get())
+    TLS.with(|t| t.overflow.replace(false))
 }
 
 pub fn set_refuse(r: Refuse) {
